@@ -303,7 +303,9 @@ func runC17(c *Check) {
 	}
 	c.ForEach(uint64(len(cases)), func(w int, i uint64) {
 		o := cases[i]
-		dir := filepath.Join(root, fmt.Sprintf("m%d", i))
+		// every case gets a parent directory of its own: entry-name templates such as "../[name]" write next to the
+		// project directory, which must not be shared with the cases running in parallel
+		dir := filepath.Join(root, fmt.Sprintf("m%d", i), "proj")
 		files := map[string]string{}
 		for k, v := range c17Project {
 			files[k] = v
@@ -312,7 +314,7 @@ func runC17(c *Check) {
 			files["src/b.js"] = "export const b = ;\n"
 		}
 		writeTree(dir, files)
-		defer os.RemoveAll(dir)
+		defer os.RemoveAll(filepath.Dir(dir))
 		before := snapshot(dir)
 		r := api.Build(o.build(dir, nil))
 		after := snapshot(dir)
@@ -334,6 +336,7 @@ func runC17(c *Check) {
 	})
 	c17Histories(c, root, inputs)
 	c.Sample(map[string]string{"options": cases[len(cases)/2].String()})
+	c17CLI(c, root)
 }
 
 // rebuild histories on one context
